@@ -76,7 +76,8 @@ _TMP = None
 def tmpdir():
     global _TMP
     if _TMP is None:
-        _TMP = tempfile.mkdtemp(prefix="c14_")
+        # one scratch directory per worker process, inside the run's scratch directory (removed by harness/main.py)
+        _TMP = tempfile.mkdtemp(prefix="c14_", dir=os.environ.get("VERIF_RUN_TMP") or None)
     return _TMP
 
 
